@@ -133,7 +133,7 @@ func (b *builder) key() []byte {
 	return []byte{c}
 }
 
-const nTemplates = 28
+const nTemplates = 30
 
 func (b *builder) value(t int) aval {
 	switch t {
@@ -274,6 +274,37 @@ func (b *builder) value(t int) aval {
 		e3 := b.strTok(0)
 		b.lit("]")
 		return aval{kind: kArr, arr: []aval{e1, {kind: kObj, keys: [][]byte{k}, vals: []aval{{kind: kNull}}}, e3}}
+	case 28: // two sibling objects inside an array, one member each
+		b.lit("[{")
+		k1 := b.key()
+		b.lit(":")
+		v1 := b.intTok(0)
+		b.lit("},")
+		b.gap()
+		b.lit("{")
+		k2 := b.key()
+		b.lit(":")
+		v2 := b.intTok(0)
+		b.lit("}]")
+		return aval{kind: kArr, arr: []aval{{kind: kObj, keys: [][]byte{k1}, vals: []aval{v1}}, {kind: kObj, keys: [][]byte{k2}, vals: []aval{v2}}}}
+	case 29: // two sibling objects, the second with two members (one of them may repeat the first sibling's member)
+		b.lit("[{")
+		k1 := b.key()
+		b.lit(":")
+		v1 := b.intTok(0)
+		b.lit("},{")
+		k2 := b.key()
+		b.lit(":")
+		v2 := b.intTok(0)
+		b.lit(",")
+		k3 := b.key()
+		b.lit(":")
+		v3 := b.intTok(0)
+		b.lit("}]")
+		if k2[0] == k3[0] {
+			b.dup = true
+		}
+		return aval{kind: kArr, arr: []aval{{kind: kObj, keys: [][]byte{k1}, vals: []aval{v1}}, {kind: kObj, keys: [][]byte{k2, k3}, vals: []aval{v2, v3}}}}
 	default: // object inside an object
 		b.lit("{")
 		k := b.key()
